@@ -87,6 +87,77 @@ func c16NameConfigs() []c16Cfg {
 	return out
 }
 
+// c16TypedKeys: numbers are compared numerically whatever their Go type: for every pair of the 12 Go numeric
+// types, a table key 1 of the first type is matched by a stream key 1 of the second and not by a 2.
+func c16TypedKeys() fw.Result {
+	a := newAcc("C16", "join-typed-keys")
+	mk := func(t int, v int) any {
+		switch t {
+		case 0:
+			return int(v)
+		case 1:
+			return int8(v)
+		case 2:
+			return int16(v)
+		case 3:
+			return int32(v)
+		case 4:
+			return int64(v)
+		case 5:
+			return uint(v)
+		case 6:
+			return uint8(v)
+		case 7:
+			return uint16(v)
+		case 8:
+			return uint32(v)
+		case 9:
+			return uint64(v)
+		case 10:
+			return float32(v)
+		}
+		return float64(v)
+	}
+	for _, cfg := range []c16Cfg{c16Configs()[2], c16Configs()[4]} { // inner-noalias, inner-composite
+		for t1 := 0; t1 < 12; t1++ {
+			init := []Row{{"dev": mk(t1, 1), "loc": "T"}}
+			if len(cfg.Keys) > 1 {
+				init[0]["site"] = "x"
+			}
+			var ops []c16Op
+			for t2 := 0; t2 < 12; t2++ {
+				for _, v := range []int{1, 2} {
+					key := []any{mk(t2, v)}
+					if len(cfg.Keys) > 1 {
+						key = append(key, "x")
+					}
+					ops = append(ops, c16Op{Kind: "emit", Key: key})
+				}
+			}
+			got, _, execErr, st, pv := c16Run(cfg, init, ops)
+			a.r.Evaluations += int64(len(ops))
+			a.r.States += int64(len(ops))
+			a.r.Transitions += int64(len(ops))
+			a.r.Nontrivial++
+			cs := map[string]any{"sql": cfg.SQL, "table": fmt.Sprintf("%T(1)", init[0]["dev"])}
+			if st != sched.StatusOK || execErr != "" {
+				a.fail("C16|typed-keys|exec", execErr+" "+st.String()+" "+firstLine(pv), cs, nil, nil)
+				continue
+			}
+			for i, op := range ops {
+				wantMatch := i%2 == 0
+				if (got[i] != nil) != wantMatch {
+					a.fail(fmt.Sprintf("C16|typed-keys|match=%v-expected=%v", got[i] != nil, wantMatch), fmt.Sprintf("%s with table key %T(1): a row with key %T(%v) gives %s", cfg.SQL, init[0]["dev"], op.Key[0], op.Key[0], js(got[i])),
+						map[string]any{"sql": cfg.SQL, "table_key_type": fmt.Sprintf("%T", init[0]["dev"]), "probe_type": fmt.Sprintf("%T", op.Key[0])}, wantMatch, got[i])
+					break
+				}
+			}
+		}
+	}
+	a.sample(map[string]any{"types": "int, int8..int64, uint..uint64, float32, float64", "pairs": 144})
+	return a.result()
+}
+
 // c16KeyPairs: composite keys match only when every component matches - for every table key t1 and every
 // probe key t2 over a component alphabet with separator- and tag-like strings, the probe matches iff the
 // reference keys are equal.
@@ -367,6 +438,7 @@ func (c16) Plan(tier string) []fw.Unit {
 	us = append(us, fw.Unit{Check: "C16", Kind: "groupby", Tier: tier, Spec: fw.Spec(enumSpec{})})
 	us = append(us, fw.Unit{Check: "C16", Kind: "names", Tier: tier, Spec: fw.Spec(enumSpec{})})
 	us = append(us, fw.Unit{Check: "C16", Kind: "key-pairs", Tier: tier, Spec: fw.Spec(enumSpec{})})
+	us = append(us, fw.Unit{Check: "C16", Kind: "typed-keys", Tier: tier, Spec: fw.Spec(enumSpec{})})
 	return us
 }
 
@@ -382,6 +454,9 @@ func (c16) Run(u fw.Unit) fw.Result {
 	}
 	if u.Kind == "key-pairs" {
 		return c16KeyPairs()
+	}
+	if u.Kind == "typed-keys" {
+		return c16TypedKeys()
 	}
 	sp := parseEnum(u)
 	cfg := c16Configs()[sp.Cfg]
